@@ -37,6 +37,7 @@ RULE += (' Also: a tool running a groupby whose key fails once over the borrowed
 RULE += (' Also: after a refused close (read pending) the idle handle is closed again and must be dead; degenerate-parameter tools (nlargest 0, nsmallest -1, islice 0) on shared handles.')
 RULE += (' Also: a scope context created over a live handle and entered after the handle was closed; the grouper idiom (one handle at every position).')
 RULE += (" Also: a handle closed while the owner's own read of the underlying iterator is in flight; empty slices that still skip (islice 2,2 / 3,1 / 2,0,3) on shared handles.")
+RULE += (' Also: the underlying iterator fails once through a handle, which is then closed and must be silent.')
 ASSUMPTIONS = ["laziness of the tools themselves is C05's concern; here the stdlib twin predicts how many items a tool takes",
                "athrow is not part of the property's operation list and is not generated"]
 EXHAUSTIVE_SUBSPACES = 'all histories of length <= 3 (thorough: 4) over a 13-operation alphabet'
@@ -272,6 +273,8 @@ def gen_history(rng, maxops=12):
         elif r < 0.62:
             ops.append(["reborrow", rng.choice([-1, h])])
             nh += 1
+        elif r < 0.635:
+            ops.append(["fault_then_close", h, rng.choice(["aclose", "aclose_iter"])])
         elif r < 0.66:
             # a scope context CREATED over the live handle, which is then closed before the context is entered
             ops.append(["scope_late", h, rng.choice(["aclose", "aclose_iter"])])
@@ -480,6 +483,36 @@ def run_history(case, stats, scoped=None):
                 # (zip_longest drops exhausted inputs without closing them)
                 self_closed.add(h)
                 counters["handle_closes"] += 1
+            elif kind == "fault_then_close":
+                # the underlying iterator fails ONCE (a timeout, a transient error) while it is read through the handle;
+                # the handle is then closed like any other: from there on it is silent, whatever the failure did to it
+                h = op[1] if op[1] < len(handles) else 0
+                if state[h] != "open" or case["flav"] == "async_gen" or not keys or parent[h] is not None:
+                    # (a generator source is finished by its own failure; so is every handle BELOW a view the failure
+                    # passes through - only handles borrowed from the underlying iterator itself are used here)
+                    continue
+                boom = RuntimeError("transient failure of the underlying iterator")
+                st.plan = Plan(st.plan.susp, st.uses + 1, boom)
+                try:
+                    await handles[h].__anext__()
+                except RuntimeError as exc:
+                    if exc is not boom:
+                        fail("borrow/handle-sequence", f"op {n} {op}: the underlying iterator's failure came out as {exc!r}")
+                        return
+                except StopAsyncIteration:
+                    pass  # (the source was exhausted already: its end comes first)
+                else:
+                    pass
+                st.plan = Plan(st.plan.susp)
+                try:
+                    await (handles[h].aclose() if op[2] == "aclose" else A.iter(handles[h]).aclose())
+                except BaseException as exc:  # noqa: BLE001
+                    fail("borrow/aclose-raises", f"op {n} {op}: {type(exc).__name__}: {exc}")
+                    return
+                model.pos = st.pos
+                state[h] = "closed"
+                self_closed.add(h)
+                counters["handles_closed_after_a_transient_failure"] += 1
             elif kind == "scope":
                 # a scope over the borrowed handle: ends its own (scoped) handle and closes the borrowed one it was
                 # given - never the underlying iterator; the ended scoped handle joins the handles under observation
